@@ -40,6 +40,9 @@ THEOREMS = [
     "Opacus.C06.min_over_orders_sound",
     "Opacus.C06.eps_valid_for_history",
     "Opacus.C06.frac_series_early_stop_counterexample",
+    # the tie to the source: Generated/RdpIntLoop.lean is re-translated from accountants/analysis/rdp.py on every run
+    "Opacus.C06.generated_int_loop_eq_model",
+    "Opacus.C06.log_a_int_correct_generated",
 ]
 RULE = (
     "case kinds: (q, sigma, alpha) triples with q log-uniform in [1e-5,1), sigma log-uniform in [0.3,20], alpha from DEFAULT_ALPHAS or "
@@ -51,6 +54,7 @@ RULE = (
     "components (conversion), the history has >= 2 distinct runs (accountant); distinct by the rounded parameter tuple"
 )
 TRUSTED = [
+    "the translator vharness/props/c06_trans.py (Python `ast` -> the model's scalar interface; the loop `for i in range(alpha + 1)` becomes a fold; anything outside its subset is reported as a broken tie) is trusted to render the loop of _compute_log_a_for_int_alpha faithfully; _log_add and everything else in rdp.py is tied by the behavioural correspondence only",
     "scipy.special.binom / log_ndtr, math.log1p / expm1 compute the real functions they name (the Float driver uses Kahan's log1p/expm1)",
     "Mironov-Talwar-Zhang 2019: the RDP of the Poisson-subsampled Gaussian mechanism over all neighbouring datasets is attained on the canonical pair N(0,s^2) vs (1-q)N(0,s^2)+qN(1,s^2) and A_alpha >= B_alpha (cited, not proved)",
     "composition: proved for the NON-adaptive product of the canonical pairs of the recorded steps (product measure, Fubini: eps_valid_for_history); adaptive composition of RDP guarantees (Mironov 2017 Prop. 1) and the add-direction D_alpha(Q||P) <= D_alpha(P||Q) are cited",
@@ -576,7 +580,14 @@ def detect_variant(ctx):
     return ("asCoded" if (v != v or v < 0) else "repaired"), v
 
 
+def regenerate(ctx):
+    from .. import regen
+    from . import c06_trans as T
+    regen.regenerate(ctx, T, "Opacus.Generated.Rdp", "accountants/analysis/rdp.py:_compute_log_a_for_int_alpha")
+
+
 def run(ctx):
+    regenerate(ctx)
     variant, val = detect_variant(ctx)
     ctx.variant["frac-series-stop-rule"] = variant
     ctx.log("fractional-series variant implemented by this tree:", variant, f"(_compute_rdp at the Lean witness = {val})")
